@@ -238,3 +238,73 @@ class ContextFormat1Subset(_K):
         return got == want and len(sets) == len(a.self.Coverage.glyphs) and bool(r) == bool(want)
 
     ensures = [prop("rules-stay-with-their-first-glyph-and-only-fully-retained-rules-remain", lambda a, old, r: ContextFormat1Subset._post(a, old, r))]
+
+
+# -- --no-hinting: hinting devices go, variation devices stay ------------------------------------------
+
+@contract
+class PruneHintsKeepsVariation(_K):
+    """Anchor.prune_hints and ValueRecord.prune_hints (subsetter option hinting=False) for every
+    combination of {absent, hinting Device (DeltaFormat 1-3), VariationIndex (DeltaFormat
+    0x8000)} on each device slot: exactly the hinting devices are removed, every variation device
+    stays attached to ITS OWN field, coordinates are untouched, and an Anchor drops to format 1 only
+    when no device is left."""
+    qualname = "Anchor.prune_hints"
+    variants = tuple((x, y) for x in ("none", "hint", "var") for y in ("none", "hint", "var")) + (("anchor2", "none"),)
+
+    @staticmethod
+    def _dev(ot, kind, tag):
+        if kind == "none":
+            return None
+        d = ot.Device()
+        d._tag = tag
+        if kind == "hint":
+            d.StartSize, d.EndSize, d.DeltaFormat, d.DeltaValue = 9, 10, 2, [1, -1]
+        else:
+            d.StartSize, d.EndSize, d.DeltaFormat = 0, 3, 0x8000       # outer / inner variation index
+        return d
+
+    def args(self, S, variant):
+        from fontTools.ttLib.tables import otTables as ot
+        x, y = variant
+        a = ot.Anchor()
+        a.XCoordinate, a.YCoordinate = S.int("x", -32768, 32767), S.int("y", -32768, 32767)
+        if x == "anchor2":
+            a.Format, a.AnchorPoint = 2, 7
+        else:
+            a.Format = 3
+            a.XDeviceTable, a.YDeviceTable = self._dev(ot, x, "X"), self._dev(ot, y, "Y")
+        vr = ot.ValueRecord()
+        vr.XPlacement, vr.YAdvance = S.int("xp", -100, 100), S.int("ya", -100, 100)
+        slots = ("XPlaDevice", "YPlaDevice", "XAdvDevice", "YAdvDevice")
+        kinds = (x if x != "anchor2" else "none", y, y, x if x != "anchor2" else "hint")
+        for slot, kind in zip(slots, kinds):
+            d = self._dev(ot, kind, slot)
+            if d is not None:
+                setattr(vr, slot, d)
+        return dict(self=a, _vr=vr, _kinds=dict(zip(slots, kinds)), _variant=variant)
+
+    def call(self, f, a):
+        f(a.self)
+        type(a._vr).prune_hints(a._vr)
+        return None
+
+    @staticmethod
+    def _post(a, old):
+        an, x, y = a.self, a._variant[0], a._variant[1]
+        cs = [eq(an.XCoordinate, old.self.XCoordinate), eq(an.YCoordinate, old.self.YCoordinate)]
+        if x == "anchor2":
+            ok = an.Format == 1
+        else:
+            keepx, keepy = x == "var", y == "var"
+            ok = ((an.XDeviceTable is not None) == keepx and (an.YDeviceTable is not None) == keepy
+                  and (not keepx or an.XDeviceTable._tag == "X") and (not keepy or an.YDeviceTable._tag == "Y")
+                  and an.Format == (3 if keepx or keepy else 1))
+        vr = a._vr
+        for slot, kind in a._kinds.items():
+            d = getattr(vr, slot, None)
+            ok = ok and ((d is not None) == (kind == "var")) and (d is None or d._tag == slot)
+        cs += [eq(vr.XPlacement, old._vr.XPlacement), eq(vr.YAdvance, old._vr.YAdvance)]
+        return And(ok, *cs)
+
+    ensures = [prop("hinting-devices-removed-variation-devices-kept-in-place", lambda a, old, r: PruneHintsKeepsVariation._post(a, old))]
